@@ -753,3 +753,84 @@ for _cls, _mod, _wk in (
         properties=["C03" if _cls == "SystemW" else "C04", "C07", "C12", "C13"],
         note="partition = greedy partition of the base's keys (arbitrary distinct integer keys); CNF invariant from the assumed belief_base_to_cnf",
     )
+
+
+# ---------------------------------------------------------------------------
+# query_to_cnf / belief_base_to_cnf: which formula goes where.  ASSUMED only (TB-tac + the step from
+# assignments of pool ids to worlds): the clause list goal2intcnf(tseitin(F)) denotes M(F)
+# ---------------------------------------------------------------------------
+def _cnf_of_formula(build):
+    """abstraction of `self.goal2intcnf(t(<formula>)[0])`: a fresh clause list denoting the formula"""
+
+    def f(s):
+        ex = s._ex
+        F = build(s)
+        r = VList(ex.st.fresh_const("cnf", LClause.sort), TClause)
+        ex.st.assume(Den(r.t) == L.M(F))
+        return r
+
+    return f
+
+
+def _goal_formula(expr_src):
+    """the formula a goal expression such as `g1[0]` / `t(F)[0]` was made from"""
+
+    def build(s):
+        import ast as _ast
+
+        node = _ast.parse(expr_src, mode="eval").body
+        assert isinstance(node, _ast.Subscript)
+        g = s._ex.eval(node.value)
+        if getattr(g, "kind", None) != "goal":
+            raise Unsupported("goal2intcnf of something that is not the first sub-goal of a tactic application")
+        return g.formula.t
+
+    return build
+
+
+_TAC = "ASSUMED (TB-tac + ids -> worlds): the integer CNF of the Tseitin goal of a formula denotes the formula's models"
+ABS_CNF = {
+    f"self.goal2intcnf({e})": (_cnf_of_formula(_goal_formula(e)), _TAC)
+    for e in ("g1[0]", "g2[0]", "g3[0]", "t(z3.And(antecedence, consequence))[0]", "t(z3.And(antecedence, z3.Not(consequence)))[0]")
+}
+_qc = _C_get = None
+from pyvc import contract as _Cmod  # noqa: E402
+
+_qc = _Cmod.get("inference.tseitin_transformation:TseitinTransformation.query_to_cnf")
+_qc.trusted = False
+_qc.abstractions = ABS_CNF
+_qc.properties = ["C15", "C03", "C04", "C05"]
+_qc.note = "which formula is converted for which side; the conversion itself is the assumed abstraction (TB-tac)"
+
+
+def _bb2cnf_inv(s, j, pre):
+    d = _val(s)
+    v, f, nf = _es(s, "v_cnf_dict"), _es(s, "f_cnf_dict"), _es(s, "nf_cnf_dict")
+    p = z3.Int("_b2c_p")
+    k = LInt.at(d.keys, p)
+    return [
+        L.Forall(
+            [p],
+            [LInt.at(d.keys, p)],
+            z3.Implies(
+                z3.And(0 <= p, p < j),
+                z3.And(
+                    L.mem_Int(f.keys, k),
+                    L.mem_Int(nf.keys, k),
+                    Den(z3.Select(f.val, k)) == L.fal(z3.Select(d.val, k)),
+                    Den(z3.Select(nf.val, k)) == L.nf(z3.Select(d.val, k)),
+                    z3.Implies(s.v.t, z3.And(L.mem_Int(v.keys, k), Den(z3.Select(v.val, k)) == L.ver(z3.Select(d.val, k)))),
+                ),
+            ),
+            "bb2cnf.done",
+        )
+    ]
+
+
+_bc = _Cmod.get("inference.tseitin_transformation:TseitinTransformation.belief_base_to_cnf")
+_bc.trusted = False
+_bc.abstractions = ABS_CNF
+_bc.loops = {0: LoopSpec("for (index, conditional) in conditionals.items()", _bb2cnf_inv)}
+_bc.properties = ["C15", "C03", "C04", "C05", "C12"]
+_bc.fuel = 5
+_bc.note = "which formula of which conditional is stored under which key of which dictionary; the conversion itself is the assumed abstraction (TB-tac)"
